@@ -112,6 +112,25 @@ theorem leaseDeadline_spec (M obs : Int) (ns : Nat) (ds : List Nat) :
       refine ⟨hl1.1, hl1.2.1, ?_, by rcases hl1.2.2 with h' | h' <;> simp [h']⟩
       intro t ht; have := hmin t ht; omega
 
+theorem foldl_minInt_le (l : List Int) (m : Int) :
+    l.foldl (fun acc b => if b < acc then b else acc) m ≤ m ∧
+    ∀ t ∈ l, l.foldl (fun acc b => if b < acc then b else acc) m ≤ t := by
+  induction l generalizing m with
+  | nil => exact ⟨Int.le_refl _, by intro t h; cases h⟩
+  | cons x rest ih =>
+    simp only [List.foldl_cons]
+    obtain ⟨h1, h2⟩ := ih (if x < m then x else m)
+    refine ⟨?_, ?_⟩
+    · by_cases hx : x < m
+      · simp only [hx, if_true] at h1 ⊢; omega
+      · simp only [hx, if_false] at h1 ⊢; exact h1
+    · intro t ht
+      rcases List.mem_cons.mp ht with rfl | ht
+      · by_cases hx : t < m
+        · simp only [hx, if_true] at h1 ⊢; exact h1
+        · simp only [hx, if_false] at h1 ⊢; omega
+      · exact h2 t ht
+
 /-! ### BoundCutFor -/
 
 theorem boundCutFor_some (m : Meta) (x : Int) (k : Nat) :
